@@ -1082,3 +1082,20 @@ benign("flush_level_overlap_test_in_local", ["C01", "C07"], "src/versioning/vers
                 break;
             }
 """)
+
+# ---- PAIR-13
+mut("first_flushed_block_not_indexed", ["C13"], "PAIR-13", file="src/tables/table_builder.rs",
+    old="""            if let Some(block_handle) = maybe_block_handle {
+                // Insert an index entry if a block was written
+                let last_key_added = self.maybe_last_key_added.as_ref().unwrap();
+                let key_separator =
+                    BinarySeparable::find_shortest_separator(last_key_added.as_ref(), key.as_ref());""",
+    new="""            if let (Some(block_handle), true) = (maybe_block_handle, self.num_entries > 1) {
+                // Insert an index entry if a block was written
+                let last_key_added = self.maybe_last_key_added.as_ref().unwrap();
+                let key_separator =
+                    BinarySeparable::find_shortest_separator(last_key_added.as_ref(), key.as_ref());""",
+    note="with max_block_size small enough for one-entry blocks the first block is written but never indexed")
+mut("footer_handles_swapped", ["C13"], "PAIR-13", file="src/tables/table_builder.rs",
+    old="""        let footer = Footer::new(metaindex_handle, index_block_handle);""",
+    new="""        let footer = Footer::new(index_block_handle, metaindex_handle);""")
